@@ -120,7 +120,8 @@ def narop_arg_kinds(akind):
     if fam == 'function':
         return ck.NUMBER_KINDS * 2 + ck.FUNC_KINDS
     if fam in ('stream', 'pattern'):
-        return ck.NUMBER_KINDS * 2 + ['routine', 'pattern', 'cpattern']
+        return ck.NUMBER_KINDS * 2 + ['routine', 'cstream', 'pstream', 'fstream',
+                                      'pattern', 'cpattern']
     if fam == 'channels':
         return ck.NUMBER_KINDS
     if fam == 'operand':
@@ -309,7 +310,20 @@ class LiftCase:
             o, hook = ck.family(self.akind), 'rbinop'
         k = f'C15/lifting/{fam}/{self.src}-{hook}/with-{o}'
         ov = overridden_by(a, self.e['name']) if self.src == 'method' else None
-        return k + (f'/{ov}' if ov else '')
+        k += f'/{ov}' if ov else ''
+        if ck.EVAL_MODE[0] != 'stream':
+            # does the same application agree when the composed pattern is
+            # streamed directly?  then the embedding path is the mechanism
+            mode = ck.EVAL_MODE[0]
+            ck.EVAL_MODE[0] = 'stream'
+            try:
+                a2, nfa2, objs2, nfs2 = self.build()
+                if ck.same(self.expected(nfa2, nfs2), self.library(a2, objs2)):
+                    # one mechanism whatever the spelling / argument kinds
+                    k = f'C15/lifting/{fam}/{hook}/only-when-embedded'
+            finally:
+                ck.EVAL_MODE[0] = mode
+        return k
 
 
 def run_lift(spec, acc, src):
@@ -332,6 +346,8 @@ def run_lift(spec, acc, src):
         acc.count(('m_' if src == 'method' else 'b_') + e['name'])
         x0 = rng.choice([-2, 0, 1, 3, 0.5, 2.5])
         lc = LiftCase(src, e, i, rng, x0, rng.random() < 0.5)
+        ck.EVAL_MODE[0] = 'stream' if rng.random() < 0.4 else \
+            rng.choice(ck.EVAL_MODES[1:])
         ck.CALL_BY_KEYWORD[0] = rng.random() < 0.3
         if ck.CALL_BY_KEYWORD[0]:
             acc.count('functions_called_by_keyword')
@@ -340,6 +356,10 @@ def run_lift(spec, acc, src):
         exp = lc.expected(nfa, nfs)
         got = lc.library(a, objs)
         acc.count(cnt)
+        acc.count('patterns_evaluated_via_' + ck.EVAL_MODE[0])
+        if any(ck.family(k) == 'stream' for k in lc.okinds) and \
+                ck.family(lc.akind) == 'pattern' and ck.EVAL_MODE[0] != 'stream':
+            acc.count('embedded_pattern_with_stream_argument')
         if lc.number_left:
             acc.count('builtin_number_on_the_left')
         if lc.hook == 'rbinop':
@@ -360,6 +380,7 @@ def run_lift(spec, acc, src):
                 'receiver_kind': lc.akind, 'receiver_value': vrepr(nfa),
                 'other_kinds': lc.okinds, 'other_values': vrepr(nfs), 'x0': x0,
                 'number_on_the_left': lc.number_left or lc.hook == 'rbinop',
+                'pattern_evaluated_via': ck.EVAL_MODE[0],
                 'expected': vrepr(exp), 'library': vrepr(got)})
         if acc.want_sample() and isval and lc.okinds and rng.random() < 0.01:
             acc.sample({'case': i, src: e['name'], 'receiver': lc.akind,
